@@ -85,11 +85,33 @@ class C06(CheckBase):
             return {'level': 'track', 'enc': enc, 'spt': spt, 'cyl': rng.below(80), 'head': rng.below(2), 'seed': rng.below(1 << 30),
                     'class': cls, 'ntracks': 12, 'damage_seed': rng.below(1 << 30), 'altmarks': rng.chance(0.3)}
         fc = fluxwork.gen_fluxcase(rng, small=True, sides=rng.weighted([(4, 1), (1, 2)]))
-        mode = rng.weighted([(3, 'one-track'), (2, 'few-tracks'), (4, 'radial')])
+        mode = rng.weighted([(3, 'one-track'), (2, 'few-tracks'), (4, 'radial'), (4, 'reid')])
         cls = rng.weighted([(3, 'G'), (7, 'S')])
         side = rng.below(fc['sides'])
         dmg = {}
-        if mode == 'radial':
+        if mode == 'reid':
+            # adversarial damage: the flips that turn one sector's ID field into another, CRC included.  The sector
+            # then claims an address that is not its own (a duplicate of another sector, or one outside the track)
+            fc['order'] = rng.choice(['skew', 'random', 'interleave2', 'seq'])
+            reid = {}
+            for _ in range(rng.weighted([(4, 1), (2, 2), (1, 4)])):
+                t = rng.below(fc['tracks'])
+                r = rng.weighted([(3, fc['spt'] - 1), (3, 1), (2, rng.below(fc['spt'])), (1, 0)])
+                how = rng.weighted([(5, 'dup-record'), (2, 'other-track'), (1, 'other-head'), (2, 'record-out-of-range'), (1, 'size-code')])
+                if how == 'dup-record':
+                    newid = [t, side, rng.weighted([(3, 0), (2, rng.below(fc['spt']))]), 1]
+                elif how == 'other-track':
+                    newid = [(t + rng.choice([1, 2, 40])) % 256, side, r, 1]
+                elif how == 'other-head':
+                    newid = [t, 1 - side, r, 1]
+                elif how == 'record-out-of-range':
+                    newid = [t, side, rng.choice([fc['spt'], fc['spt'] + 1, 0x7F, 0xFF]), 1]
+                else:
+                    newid = [t, side, r, rng.choice([0, 2, 3, 7])]
+                if newid[:3] != [t, side, r] or newid[3] != 1:
+                    reid['%d:%d:%d' % (side, t, r)] = newid
+            fc['reid'] = reid
+        elif mode == 'radial':
             # the same damage to the same sector on every track (a scratch)
             rec = rng.weighted([(3, fc['spt'] - 1), (2, rng.below(fc['spt'])), (1, 0)])
             kind = rng.weighted([(3, 'kill-id'), (3, 'kill-datamark'), (2, 'kill-data'), (2, 'kill-sync')])
@@ -102,7 +124,7 @@ class C06(CheckBase):
             for t in tracks:
                 dmg['%d:%d' % (side, t)] = gen_damage(rng, fc['spt'], cls)
         surfaces = [dd.gen_surface(rng, variant='acorn', geom=(fc['tracks'], fc['spt']), img_id=4, side=s).to_json() for s in range(fc['sides'])]
-        return {'level': 'image', 'flux': fc, 'surfaces': surfaces, 'damage': dmg, 'mode': mode, 'class': cls if mode != 'radial' else 'S'}
+        return {'level': 'image', 'flux': fc, 'surfaces': surfaces, 'damage': dmg, 'mode': mode, 'class': cls if mode not in ('radial', 'reid') else 'S'}
 
     # ------------------------------------------------------------------ execution
     def run_case(self, case, ctx):
@@ -212,8 +234,9 @@ class C06(CheckBase):
         out.fault('image:' + case['mode'], True)
         desc = {'level': 'image', 'container': fc['container'], 'mode': case['mode']}
         what = '%s %s image (%dx%dx%d), %s damage on %d track(s) [%s]' % (
-            fc['container'], fc['enc'], fc['tracks'], fc['spt'], fc['sides'], case['mode'], len(dmg),
-            '; '.join('%s@%s[%s]' % (o['k'], o['region'], o.get('rec')) for o in list(dmg.values())[0][:3]))
+            fc['container'], fc['enc'], fc['tracks'], fc['spt'], fc['sides'], case['mode'], len(dmg) or len(fc.get('reid') or {}),
+            '; '.join('%s@%s[%s]' % (o['k'], o['region'], o.get('rec')) for o in list(dmg.values())[0][:3]) if dmg else
+            '; '.join('ID of %s rewritten to %s' % kv for kv in sorted((fc.get('reid') or {}).items())[:3]))
         verdict = 'loaded'
         if not j['ok']:
             out.probe('image-rejected')
